@@ -34,7 +34,7 @@ ROUTES = ["ref", "ref", "fiber", "uncompressed", "yaml", "deepcopy"]
 
 @st.composite
 def cases(draw):
-    spec = draw(K.kernel_specs())
+    spec = draw(K.kernel_specs(shapeless_out=True))
     nvar = draw(st.integers(1, 3))
     flows = [draw(K.dataflows(spec["vars"])) for _ in range(nvar)]
     routes = {str(i): draw(st.sampled_from(ROUTES)) for i in range(len(spec["operands"]))}
